@@ -11,6 +11,7 @@
 #include "nmtools/utl/tuple.hpp"
 #include "nmtools/meta/loop.hpp"
 #include "nmtools/meta/bits/transform/common_type.hpp"
+#include "nmtools/meta/bits/traits/is_trivially_constructible.hpp"
 
 // To make this file include-able but errored when used
 // TODO: better handling for no-malloc build
@@ -153,7 +154,7 @@ namespace nmtools::utl
         vector(size_type N)
             : allocator{}
             , buffer_(allocator.allocate(N))
-            , size_(N)
+            , size_(0)
             , buffer_size_(N)
             , initialized(true)
         {
@@ -225,6 +226,13 @@ namespace nmtools::utl
                 buffer_ = new_buffer;
             } else {
                 // not invalidating the value, for now
+            }
+            // like std::vector, elements added by growing are value-initialized
+            // (instead of exposing uninitialized or stale values)
+            if constexpr (meta::is_trivially_constructible_v<T>) {
+                for (size_type i=old_size; i<new_size; i++) {
+                    buffer_[i] = T{};
+                }
             }
         }
 
